@@ -332,6 +332,7 @@ func cmdRandom(args []string) {
 		f.Close()
 		*nscen = len(shp)
 	}
+	driverErr := ""
 	var all []map[string]interface{}
 	var problems []Problem
 	stats := map[string]int{}
@@ -344,11 +345,14 @@ func cmdRandom(args []string) {
 		}
 		g, derr := runScenario(*seed*1000+int64(si), si+1, *bonus && si%2 == 0 || (*bonus && shp != nil), *steps, shape, *verbose)
 		if derr != "" {
+			// the node stopped cooperating (own block rejected, ...): keep what was observed so far
 			fmt.Fprintln(os.Stderr, "driver error:", derr)
-			if g != nil {
-				b, _ := json.Marshal(map[string]interface{}{"problems": g.Problems})
-				fmt.Fprintln(os.Stderr, string(b))
+			driverErr = derr
+			if g == nil {
+				os.Exit(3)
 			}
+		}
+		if driverErr != "" && len(g.Problems) == 0 {
 			os.Exit(3)
 		}
 		all = append(all, g.Events...)
@@ -362,6 +366,9 @@ func cmdRandom(args []string) {
 		blocks += len(g.S.Blocks) - 1
 		if len(samples) < 5 {
 			samples = append(samples, g.Samples...)
+		}
+		if driverErr != "" {
+			break
 		}
 	}
 	if *out != "" {
@@ -378,7 +385,7 @@ func cmdRandom(args []string) {
 		bw.Flush()
 		w.Close()
 	}
-	b, _ := json.Marshal(map[string]interface{}{"scenarios": *nscen, "events": len(all), "blocks": blocks, "problems": problems, "stats": stats, "samples": samples, "bonus": *bonus})
+	b, _ := json.Marshal(map[string]interface{}{"scenarios": *nscen, "events": len(all), "blocks": blocks, "problems": problems, "stats": stats, "samples": samples, "bonus": *bonus, "driver_error": driverErr})
 	fmt.Println(string(b))
 }
 
